@@ -37,8 +37,17 @@ inductive Exp where
   | free (m : Nat)
   | ffree (lp m idx tag : Nat)
   | fdone (lp n : Nat) (ok : Bool)
+  | termrb (lp t : Nat)       -- termination_on_lp_rollback(lp, t)
+  | termproc (lp t : Nat)     -- termination_on_msg_process(lp, t) when it gets past its early return
+  | vote (tq : Nat)
+
+/-- `SIMTIME_MAX` as a time key (what the harness prints for it) -/
+def tMax : Nat := 2 ^ 62
 
 structure Thread where
+  /-- `lps_to_end` (uint64, wraps) and `max_t` of gvt/termination.c -/
+  lpsToEnd : Nat := 0
+  maxT : Nat := 0
   epoch : Nat := 0
   gvt : Nat := 0
   exp : List Exp := []
@@ -59,6 +68,8 @@ structure Sys where
   allocs : Nat := 0
   frees : Nat := 0
   tterm : Nat := 0
+  /-- `lp->termination_t` per LP (0 = predicate not true; `tMax` = true since init) -/
+  termT : Array Nat := #[]
 
 def dummyEv : Event := { dest := 0, t := 0, type := 0, payload := [] }
 
@@ -120,18 +131,42 @@ def applyExp (s : Sys) (r : Nat) (e : Exp) (arg : Nat) : Sys × String :=
   | .fwd m lp =>
     let l := s.lp lp
     let l := { l with hist := l.hist ++ [.past m] }
-    (s.setLp lp l, s!"fwd {m} lp={lp} idx={l.hist.length - 1} st={hx (digest l.st)}")
+    let s := s.setLp lp l
+    let th := s.th r
+    let s := if s.termT.getD lp 0 = 0 then s.setTh r { th with exp := th.exp ++ [.termproc lp (s.ev m).t] } else s
+    (s, s!"fwd {m} lp={lp} idx={l.hist.length - 1} st={hx (digest l.st)}")
   | .antid m f => (s, s!"antid {m} f={f}")
   | .free m =>
     if (s.mrec m).freed then (s, s!"double-free {m}")
     else ({ (s.setRec m { s.mrec m with freed := true }) with frees := s.frees + 1 }, s!"free {m}")
   | .ffree lp m i tag => (s, s!"ffree lp={lp} m={if tag = 1 then 0 else m} idx={i} tag={tag}")
-  | .fdone lp n ok => let _ := r; (s, s!"fdone lp={lp} n={n} c03={if ok then "ok" else "MISMATCH"}")
+  | .fdone lp n ok => (s, s!"fdone lp={lp} n={n} c03={if ok then "ok" else "MISMATCH"}")
+  | .termrb lp t =>
+    -- termination_on_lp_rollback: keep = old_t < msg_time || old_t == SIMTIME_MAX
+    let old := s.termT.getD lp 0
+    let keep := decide (old < t) || old == tMax
+    let th := s.th r
+    let s := { s with termT := s.termT.set! lp (if keep then old else 0) }
+    let s := s.setTh r { th with lpsToEnd := if keep then th.lpsToEnd else (th.lpsToEnd + 1) % 2 ^ 64 }
+    (s, s!"termrb lp={lp} old={old} keep={if keep then 1 else 0}")
+  | .termproc lp t =>
+    -- termination_on_msg_process past the early return (`termination_t == 0` before)
+    let term := canEnd s.P lp (s.lp lp).st
+    let th := s.th r
+    let newT := if term then t else 0   -- term * msg_time: stays 0 for msg_time 0 (finding F2)
+    let lte := if term then (th.lpsToEnd + 2 ^ 64 - 1) % 2 ^ 64 else th.lpsToEnd
+    let s := { s with termT := s.termT.set! lp newT }
+    let s := s.setTh r { th with lpsToEnd := lte, maxT := if term then max t th.maxT else th.maxT }
+    (s, s!"termproc lp={lp} t={newT} lte={lte}")
+  | .vote tq =>
+    let th := s.th r
+    (s.setTh r { th with maxT := tMax }, s!"vote {r} tq={tq} lte={th.lpsToEnd}")
 
 def expKind : Exp → String
   | .send .. => "send" | .initPush .. => "initPush" | .antil .. => "antil" | .unproc .. => "unproc"
   | .rb .. => "rb" | .silent .. => "silent" | .rbdone .. => "rbdone" | .fwd .. => "fwd"
   | .antid .. => "antid" | .free .. => "free" | .ffree .. => "ffree" | .fdone .. => "fdone"
+  | .termrb .. => "termrb" | .termproc .. => "termproc" | .vote .. => "vote"
 
 /-- consume the head of the thread's expectation list for a line of kind `kind` -/
 def consume (s : Sys) (r : Nat) (kind : String) (arg : Nat) : Sys × String :=
@@ -157,7 +192,7 @@ def onExtract (s : Sys) (r m f : Nat) : Sys :=
         let (s, evs) := doRollback s lpI pastI
         let l := s.lp lpI
         let s := s.setLp lpI { l with bound := if l.hist.isEmpty then none else l.bound }
-        s.setTh r { (s.th r) with exp := evs ++ [.antid m f, .free m] }
+        s.setTh r { (s.th r) with exp := evs ++ [.termrb lpI (s.ev m).t, .antid m f, .free m] }
     else
       let l := s.lp lpI
       let s := s.setLp lpI { l with bound := if l.hist.isEmpty then none else l.bound }
@@ -168,11 +203,16 @@ def onExtract (s : Sys) (r m f : Nat) : Sys :=
     let me := { me with rawFlags := f + 2 }
     let strag : Bool := isStraggler s.look l me
     let (s, evs) :=
-      if strag then doRollback s lpI (matchStraggler s.look l.hist me) else (s, [])
+      if strag then
+        let (s, evs) := doRollback s lpI (matchStraggler s.look l.hist me)
+        (s, evs ++ [.termrb lpI me.destT])
+      else (s, [])
     -- forward execution
     let l := s.lp lpI
     let (st', outs) := hnd s lpI l.st (s.ev m)
     let s := s.setLp lpI { l with st := st', bound := some (s.ev m).t }
+    -- termination_on_msg_process returns early when termination_t != 0; whether it does is decided when the
+    -- rollback's own termination update (if any) has been applied, i.e. at `fwd` time
     s.setTh r { (s.th r) with exp := evs ++ outs.map (fun e => Exp.send lpI e) ++ [.fwd m lpI] }
 
 def insertSorted (e : Event) : List Event → List Event
@@ -254,6 +294,7 @@ def parStep (s : Sys) (toks : List String) : Sys × String :=
     ({ s with P := P, tterm := nat! tterm, lps := Array.replicate (nat! lps) { st := {} },
               ths := Array.replicate (nat! threads) {},
               rng0 := Array.replicate (nat! lps) ⟨0, 0, 0, 0⟩,
+              termT := Array.replicate (nat! lps) 0,
               committed := Array.replicate (nat! lps) 0 }, "model ok")
   | ["period", _] => (s, "period")
   | ["alloc", r, o] =>
@@ -280,9 +321,8 @@ def parStep (s : Sys) (toks : List String) : Sys × String :=
     let s := match t.exp with
       | [.initPush lp' m] =>
         let l := s.lp lp'
-        (s.setLp lp' { l with hist := l.hist ++ [.past m] }).setTh r { t with exp := [] }
+        (s.setLp lp' { l with hist := l.hist ++ [Entry.past m] }).setTh r { t with exp := [] }
       | _ => s
-    if !(s.th r).exp.isEmpty then (s, s!"ckpt-while-expecting") else
     let l := checkpoint (s.lp lp)
     (s.setLp lp l, s!"ckpt lp={lp} ref={l.hist.length} st={hx (digest l.st)}")
   | ["deq", r, m] =>
@@ -308,6 +348,15 @@ def parStep (s : Sys) (toks : List String) : Sys × String :=
   | ["silent", r, _, _, _] => consume s (nat! r) "silent" 0
   | ["rbdone", r, _, _] => consume s (nat! r) "rbdone" 0
   | ["fwd", r, m, _, _] => consume s (nat! r) "fwd" (nat! m)
+  | ["termrb", r, _] => consume s (nat! r) "termrb" 0
+  | ["termproc", r, _] => consume s (nat! r) "termproc" 0
+  | ["terminit", r, lp] =>
+    let r := nat! r; let lp := nat! lp
+    let term := canEnd s.P lp (s.lp lp).st
+    let th := s.th r
+    let lte := if term then th.lpsToEnd else (th.lpsToEnd + 1) % 2 ^ 64
+    let s := { s with termT := s.termT.set! lp (if term then tMax else 0) }
+    (s.setTh r { th with lpsToEnd := lte }, s!"terminit lp={lp} term={if term then 1 else 0} lte={lte}")
   | ["free", r, m] =>
     let r := nat! r; let m := nat! m
     match (s.th r).exp with
@@ -322,8 +371,12 @@ def parStep (s : Sys) (toks : List String) : Sys × String :=
   | ["gvt", r, tq] =>
     let r := nat! r; let tq := nat! tq
     let t := s.th r
-    (s.setTh r { t with epoch := t.epoch + 1, gvt := tq }, s!"gvt {r} tq={tq}")
-  | ["vote", r, tq, _] => (s, s!"vote {r} tq={tq}")
+    -- termination_on_gvt: no vote while (lps_to_end || max_t >= gvt) && gvt < termination_time
+    let termTime := if s.tterm = 0 then tMax else s.tterm
+    let noVote := (t.lpsToEnd != 0 || decide (t.maxT ≥ tq)) && decide (tq < termTime)
+    let exp := if noVote then t.exp else t.exp ++ [.vote tq]
+    (s.setTh r { t with epoch := t.epoch + 1, gvt := tq, exp := exp }, s!"gvt {r} tq={tq}")
+  | ["vote", r, _, _] => consume s (nat! r) "vote" 0
   | ["stage", r, n] => (s, s!"stage {r} {n}")
   | ["finilp", _, lp] =>
     let lp := nat! lp
